@@ -70,8 +70,8 @@ fn profile() -> Profile {
 
 pub fn strategy() -> BoxedStrategy<Input> {
     let p = profile();
-    (cgen::case(&p), prop::collection::vec(any::<u16>(), 8))
-        .prop_map(|(mut case, sel)| {
+    (cgen::case(&p), prop::collection::vec(any::<u16>(), 8), 0u8..10)
+        .prop_map(|(mut case, sel, nodrain)| {
             for cs in case.conns.iter_mut() {
                 // time may pass between operations, but never 5 s with inbound data left unread:
                 // otherwise a run whose cancelled poll read less than its twin's would (correctly)
@@ -101,7 +101,11 @@ pub fn strategy() -> BoxedStrategy<Input> {
                 if let Some(i) = cs.steps.iter().position(|s| matches!(s, Step::Disconnect { .. })) {
                     let d = cs.steps.remove(i);
                     cs.steps.retain(|s| !matches!(s, Step::Disconnect { .. }));
-                    cs.steps.push(Step::PollIdle { max: 30 });
+                    // mostly the application drains first; sometimes it disconnects right after
+                    // its last operation (then only the request stream is comparable, see eval)
+                    if nodrain >= 4 {
+                        cs.steps.push(Step::PollIdle { max: 30 });
+                    }
                     cs.steps.push(d.clone());
                     // the usual reaction to a cancelled disconnect(): call it again
                     cs.steps.push(d);
@@ -201,6 +205,30 @@ fn cancellable(s: &Step) -> bool {
     }
 }
 
+/// Does a disconnect() follow the step on its connection without the application draining the
+/// connection (polling until idle) in between? Every later operation does a bounded amount of
+/// work, so a run that was set back by a cancellation may still lag behind its twin when the
+/// disconnect abandons what is left.
+fn cut_short_by_disconnect(case: &Case, at: (usize, usize)) -> bool {
+    let steps = &case.conns[at.0].steps;
+    let Some(d) = steps.iter().position(|s| matches!(s, Step::Disconnect { .. })) else { return false };
+    at.1 < d && !steps[at.1 + 1..d].iter().any(|s| matches!(s, Step::PollIdle { .. }))
+}
+
+/// What remains comparable then, on the connection of the cancelled operation: requests go out in
+/// order, so the cancelled run's request packets before the DISCONNECT are a prefix of the
+/// uncancelled twin's, the DISCONNECTs are the same, and every stream is well-formed.
+fn same_lenient(cancelled: &Projection, twin: &Projection, tr: usize) -> bool {
+    let split = |p: &Projection| {
+        let all = p.requests.get(tr).cloned().unwrap_or_default();
+        let (disc, req): (Vec<Vec<u8>>, Vec<Vec<u8>>) = all.into_iter().partition(|b| b.first().is_some_and(|x| x >> 4 == 14));
+        (req, disc)
+    };
+    let (rc, dc) = split(cancelled);
+    let (rt, dt) = split(twin);
+    rt.starts_with(&rc) && dc == dt && cancelled.undecodable == twin.undecodable && cancelled.panic == twin.panic
+}
+
 fn run(case: &Case) -> Trace {
     run_case_with(case, |w| w.cancel_disconnect_midway = true)
 }
@@ -279,6 +307,7 @@ pub fn eval(inp: &Input, budget: usize) -> Out {
         }
     }
     let mut tried: Vec<(usize, usize, u16)> = Vec::new();
+    let mut effective: Vec<(usize, usize, u16)> = Vec::new();
     for (ci, si, k) in cands {
         tried.push((ci, si, k));
         let vcase = set_cancel(&inp.case, (ci, si), k);
@@ -289,6 +318,7 @@ pub fn eval(inp: &Input, budget: usize) -> Out {
         if !matches!(op.res, OpRes::Cancelled { .. }) {
             continue; // the operation finished before that await point in this run
         }
+        effective.push((ci, si, k));
         let wrote = op.io_calls.1 > op.io_calls.0 && {
             // bytes accepted during the cancelled op
             let view = View::build(&t);
@@ -307,8 +337,15 @@ pub fn eval(inp: &Input, budget: usize) -> Out {
         if pv == pw {
             continue;
         }
+        // a disconnect() issued right after the cancelled operation (nothing drains in between)
+        // legitimately abandons owed acknowledgements and undelivered messages: only the request
+        // stream and its well-formedness are comparable then
+        let lenient = cut_short_by_disconnect(&inp.case, (ci, si));
+        if lenient && same_lenient(&pv, &pw, op.tr) {
+            continue;
+        }
         let wo = project(&run(&without(&inp.case, (ci, si))));
-        if pv == wo {
+        if if lenient { same_lenient(&pv, &wo, op.tr) } else { pv == wo } {
             // the request was not enqueued yet (whatever was written during the op belonged to
             // earlier packets): it left no trace
             continue;
@@ -327,6 +364,61 @@ pub fn eval(inp: &Input, budget: usize) -> Out {
                 sig,
                 detail: format!("operation (conn {ci}, step {si}: {kind}) dropped at await point {k} after {bytes_during} of its bytes were accepted: {detail}"),
             });
+        }
+    }
+    // two operations cancelled in one run: each either takes full effect or leaves no trace, so the
+    // run must equal one of the four with/without twins
+    let _ = tried;
+    if out.violations.is_empty() && inp.only.is_empty() && effective.len() >= 2 {
+        let mut pairs: Vec<((usize, usize, u16), (usize, usize, u16))> = Vec::new();
+        let n = effective.len();
+        for (j, sl) in inp.sel.iter().enumerate().take(6) {
+            let a = effective[(*sl as usize).wrapping_mul(40503).wrapping_add(j) % n];
+            let b = effective[(*sl as usize).wrapping_mul(9973).wrapping_add(7 * j + 1) % n];
+            // (pairs are only compared where the application drains before it disconnects)
+            let drained = !cut_short_by_disconnect(&inp.case, (a.0, a.1)) && !cut_short_by_disconnect(&inp.case, (b.0, b.1));
+            if drained && (a.0, a.1) < (b.0, b.1) && !pairs.contains(&(a, b)) {
+                pairs.push((a, b));
+            }
+        }
+        for (a, b) in pairs.into_iter().take(if budget > 100 { 6 } else { 3 }) {
+            let both = set_cancel(&set_cancel(&inp.case, (a.0, a.1), a.2), (b.0, b.1), b.2);
+            let t = run(&both);
+            out.variants += 1;
+            out.watchdog |= t.watchdog;
+            let cancelled = |st: (usize, usize)| t.ops.iter().find(|o| o.step == st).is_some_and(|o| matches!(o.res, OpRes::Cancelled { .. }));
+            if !cancelled((a.0, a.1)) || !cancelled((b.0, b.1)) {
+                continue;
+            }
+            out.multi += 1;
+            let pv = project(&t);
+            let same = |x: &Projection, y: &Projection| x == y;
+            if same(&pv, &pw) {
+                continue;
+            }
+            // without b first: removing the later step keeps a's index valid
+            let wo_b = without(&inp.case, (b.0, b.1));
+            let wo_a = without(&inp.case, (a.0, a.1));
+            let wo_ab = without(&wo_b, (a.0, a.1));
+            if [wo_a, wo_b, wo_ab].iter().any(|c| same(&pv, &project(&run(c)))) {
+                continue;
+            }
+            let (what, detail) = describe(&pw, &pv);
+            let sig = if [a, b].iter().any(|x| matches!(inp.case.conns[x.0].steps[x.1], Step::Disconnect { .. })) && {
+                let dop = t.ops.iter().find(|o| matches!(inp.case.conns[o.step.0].steps.get(o.step.1), Some(Step::Disconnect { .. })) && matches!(o.res, OpRes::Cancelled { .. }));
+                dop.is_some_and(|o| disconnect_bytes_written(&t, o))
+            } {
+                "C13/cancelled-disconnect-after-partial-write".to_string()
+            } else {
+                format!("C13/differs-after-two-cancellations/{what}")
+            };
+            if !out.violations.iter().any(|x| x.sig == sig) {
+                out.violations.push(Violation {
+                    prop: "C13",
+                    sig,
+                    detail: format!("operations (conn {}, step {}) and (conn {}, step {}) dropped at await points {} and {}: equals none of the four with/without twins; against the uncancelled run: {detail}", a.0, a.1, b.0, b.1, a.2, b.2),
+                });
+            }
         }
     }
     out
